@@ -48,7 +48,7 @@ DOMAINS = ["example.com", "EXAMPLE.COM", "h", "a.b.c", "xn--bcher-kva.de", "b\u0
            "[::1]", "[1:2:3:4:5:6:7:8]", "[::ffff:1.2.3.4]", "[1::2::3]", "[::1", "::1]", "[g::]", "[1:2:3:4:5:6:1.2.3.4]",
            "localhost", "LOCALHOST", "loc%61lhost", "%41.com", "a%2Eb", "a%2fb", "a%00b", "a b", "a<b", "a>b", "a^b", "a|b",
            "a\u3002b", "a\uff0eb", "\uff21\uff22", "a\u00adb", "\u200d", "a\u200db", "\u05d0.com", "\u05d0a.com", "a\u0338", "<\u0338",
-           "%C2%AD", "a%C2%ADb", "%ef%bc%8e", ".", "..", "a.", "a..", ".a", "%2e", "a_b", "a!$&'()*+,;=b", "a%", "a%4", "a%zz",
+           "%C2%AD", "a%C2%ADb", "a<%CC%B8b", ">%cc%b8", "<%C2%AD%CC%B8", "a<%41", "=%CC%B8", "a<b%CC%B8", "%ef%bc%8e", ".", "..", "a.", "a..", ".a", "%2e", "a_b", "a!$&'()*+,;=b", "a%", "a%4", "a%zz",
            "\U0001f4a9.com", "ex\u00e4mple.com", "\u0131.com", "\u00df.de", "\u03c2.gr", "", "a" * 64 + ".com", "a." * 130 + "b"]
 CREDS = ["", "u@", "u:p@", ":p@", "u:@", ":@", "@", "u:p:q@", "a@b@", "a:b@c:d@", "u%40:p%3A@", "\u00fc:\u00e9@", "u /:p\\;=@", "%zz@", "[u]@", "^|@"]
 PORTS = ["", ":", ":0", ":80", ":443", ":21", ":8080", ":65535", ":65536", ":99999", ":000080", ":0000000000000000443",
